@@ -404,25 +404,25 @@ CONDITIONS = [
                                             for s in range(6) for t in range(3) for f in ("True", "False") for g in ("True", "False") for sl in (0, 1)]},
          twins=["reach", "mutant:callback_keeps_pending@si == 3 and t1 == 0 and f0 == False and s0 == 0 and s1 == 0 and s2 == 0 and not f2 and k1 == 0 and k2 == 0",
                 "mutant:flush_reraises@si == 0 and t1 == 1 and f0 == True and s0 == 0 and s1 == 0 and s2 == 0 and not f2 and k1 == 0 and k2 == 0"],
-         timeout={"quick": 240, "thorough": 900},
+         timeout={"quick": 420, "thorough": 900},
          bounds="quick: 5 application scripts (1-2 pushes, flush at any position, push after flush), each task failing or not; one pre-emption at a SYMBOLIC step "
                 "index (0..70, partitioned by the solver over the steps actually taken) to any of the 3 threads; thorough: 6 scripts (up to 3 pushes), tasks slow by 0-2 steps, "
                 "symbolic picks at forced switches"),
     dict(fn="delivery_two_apps", cubes={"quick": ["si == 3 and t1 == 3 and t2 == 0 and f0 == False and a2 == 0 and %s and p2 - p1 <= 14" % r for r in ("p1 <= 8", "8 < p1 <= 16", "16 < p1 <= 24", "24 < p1 <= 32")] +
                                                  ["si == 3 and t1 == 3 and t2 == %d and f0 == False and a2 == 1 and %s and p2 - p1 <= 8" % (b, r) for b in (0, 1) for r in ("8 < p1 <= 20", "20 < p1 <= 32")],
                                         "thorough": ["si == %d and t1 == %d and t2 == %d and f0 == False and a2 == %d" % (s, a, b, c) for s in (0, 3) for a in (0, 3) for b in range(4) for c in (0, 1)]},
-         twins=["reach@si == 3 and t1 == 3 and t2 == 0 and f0 == False and a2 == 0 and p1 <= 8 and p2 - p1 <= 14", "mutant:flush_keeps_open@si == 3 and t1 == 3 and t2 == 0 and f0 == False and a2 == 0 and 16 < p1 <= 24 and p2 - p1 <= 14"], timeout={"quick": 240, "thorough": 900},
+         twins=["reach@si == 3 and t1 == 3 and t2 == 0 and f0 == False and a2 == 0 and p1 <= 8 and p2 - p1 <= 14", "mutant:flush_keeps_open@si == 3 and t1 == 3 and t2 == 0 and f0 == False and a2 == 0 and 16 < p1 <= 24 and p2 - p1 <= 14"], timeout={"quick": 420, "thorough": 900},
          bounds="application thread (push, flush) + a second application thread pushing once or calling flush as well + 2 workers; two pre-emptions at symbolic steps "
                 "(quick: the first one, at step <= 32, to the second application thread, the second one at most 14 steps later back to the first)"),
     dict(fn="delivery3", cubes={"quick": ["s1 == %d and f1 == False and k1 == %d and %s and p2 - p1 <= 8" % (a, k, r) for a in (0, 1) for k in (0, 1, 2) for r in ("12 < p1 <= 20", "20 < p1 <= 28", "28 < p1 <= 36", "36 < p1 <= 44")],
                                 "thorough": ["s1 == %d and f1 == %s and k1 == %d and %s" % (a, f, k, r) for a in (0, 1, 2) for f in ("False", "True") for k in (0, 1, 2) for r in ("p1 <= 16", "16 < p1 <= 32", "p1 > 32")]},
          twins=["reach@s1 == 0 and f1 == False and k1 == 1 and 20 < p1 <= 28 and p2 - p1 <= 8", "mutant:pending_key_from_size@s1 == 0 and f1 == False and k1 == 1 and 20 < p1 <= 28 and p2 - p1 <= 8"],
-         timeout={"quick": 240, "thorough": 900},
+         timeout={"quick": 420, "thorough": 900},
          bounds="3 pushes then flush; pre-emption to worker 1 at a symbolic step (quick: 13..44) and back to the application thread at most 8 (thorough: any number of) steps later; "
                 "the middle task slow by 0-1 (thorough 0-2) steps / failing (thorough); every pick at the forced switch"),
     dict(fn="delivery2", cubes={"quick": [], "thorough": ["si == %d and t1 == %d and t2 == %d and f0 == False and f1 == %s and s0 == 0 and s1 == 0 and k1 == 0 and p1 <= 40 and p2 <= 50" % (s, a, b, g)
                                              for s in (0, 3) for a in (1, 2) for b in (0, 1) for g in ("True", "False")]},
-         twins=[], timeout={"quick": 240, "thorough": 900}, bounds="thorough only: two pre-emptions at symbolic step indexes (first <= 40, second <= 50)"),
+         twins=[], timeout={"quick": 420, "thorough": 900}, bounds="thorough only: two pre-emptions at symbolic step indexes (first <= 40, second <= 50)"),
 ]
 
 
